@@ -107,7 +107,8 @@ def three_ways_side_check(r, tier):
         # python values have a python type even on an untyped stream: their methods are left exactly as written
         (0, "lambda e: 'a'.encode()", "pass"), (0, "lambda e: 'a b'.split(sep=e.x)", "pass"), (0, "lambda e: 'abc'.startswith(e.x)", "pass"), (0, "lambda e: ' a '.strip()", "pass"),
         (0, "lambda e: len(e.jets).to_bytes()", "pass"), (0, "lambda e: '{}'.format(e.x)", "pass"), (0, "lambda e: 'abc'.x[1](2)", "pass"), (0, "lambda e: (1.5).is_integer()", "pass"),
-        (0, "lambda e: ('a' + 'b') if e.ok else 'c'", "pass"), (2, "lambda e: ('a' + e.name).startswith('ab')", "ValueError"),
+        (0, "lambda e: ('a' + 'b') if e.ok else 'c'", "pass"), (0, "lambda e: '-' * 3 if e.flag else 'none'", "pass"), (0, "lambda e: 3 * '-' if e.flag else 'none'", "pass"),
+        (0, "lambda e: '%d' % 3 if e.flag else 'none'", "pass"), (0, "lambda e: b'-' * 3 if e.flag else b'n'", "pass"), (0, "lambda e: '-' * 3 if e.flag else 1", "ValueError"), (2, "lambda e: ('a' + e.name).startswith('ab')", "ValueError"),
         (0, "lambda e: {'a': e.x}[[1]]", "ValueError"), (1, "lambda e: {'a': e.x}[[1]]", "ValueError"),
         # the one parameter may be positional-only; anything that is not exactly one positional parameter is refused
         (0, "lambda e, /: e.x", "pass"), (1, "lambda e, /: e.jets", "pass"), (0, "lambda *e: e", "ValueError"), (0, "lambda e, *, k=1: e.x", "ValueError"), (0, "lambda e, f: e.x", "ValueError"),
